@@ -2299,6 +2299,13 @@ impl Runner {
 
     pub fn step(&mut self, toks: &[&str]) -> String {
         let line = toks.join(" ");
+        // (asked by the generator of a child process: see `child_answers`)
+        if let ["static_ops", key] = toks {
+            return static_case(key).into_iter().map(|x| x.0).collect::<Vec<_>>().join("\t");
+        }
+        if let ["api_stats"] = toks {
+            return api_stats_line();
+        }
         if let ["@", "static", key, ..] = toks {
             self.reset();
             let script = static_case(key);
@@ -2950,11 +2957,55 @@ fn static_case(key: &str) -> Vec<(String, String)> {
 #[path = "c02_gen.rs"]
 mod generator;
 
+/// The answers of this binary in `run` mode, in a child process: the statically typed cases
+/// execute library code, and a change of the library that makes one of them abort (undefined
+/// behaviour caught by a debug assertion) must not take the generator down with it — the run
+/// phase then reports the abort as the failing input it is.
+fn child_answers(lines: &[String]) -> Option<Vec<String>> {
+    use std::io::Write;
+    use std::process::{Command, Stdio};
+    let exe = std::env::current_exe().ok()?;
+    let mut child = Command::new(exe)
+        .args(["run", "C02"])
+        .env_remove("EMLV_REVERSE")
+        .env_remove("EMLV_THREAD")
+        .env_remove("EMLV_PERTURB")
+        .stdin(Stdio::piped())
+        .stdout(Stdio::piped())
+        .stderr(Stdio::null())
+        .spawn()
+        .ok()?;
+    {
+        let mut stdin = child.stdin.take()?;
+        for l in lines {
+            writeln!(stdin, "{}", l).ok()?;
+        }
+    }
+    let out = child.wait_with_output().ok()?;
+    if !out.status.success() {
+        return None;
+    }
+    Some(String::from_utf8_lossy(&out.stdout).lines().map(|l| l.to_string()).collect())
+}
+
 pub fn gen(g: &mut Gen) {
     silence_panics();
-    generator::gen(g, &STATIC_KEYS, &|key| static_case(key).into_iter().map(|x| x.0).collect());
+    generator::gen(g, &STATIC_KEYS, &|key| match child_answers(&[format!("static_ops {}", key)]) {
+        Some(a) if a.len() == 1 && !a[0].is_empty() => a[0].split('\t').map(|x| x.to_string()).collect(),
+        // the case kills the process: the run phase will show it at the `@ static` line
+        _ => vec!["shape".to_string()],
+    });
     // the API surface: one line whose auxiliary part lists public items neither driven nor listed
     g.op("@ case".into());
     g.op("api_surface".into());
-    api_stats(g);
+    match child_answers(&["api_stats".to_string()]) {
+        Some(a) if a.len() == 1 => {
+            for entry in a[0].split('\t') {
+                if let Some((k, n)) = entry.rsplit_once(' ') {
+                    g.count_n(k, n.parse().unwrap_or(0));
+                }
+            }
+        }
+        _ => g.count("api.scan_failed"),
+    }
 }
